@@ -308,7 +308,10 @@ func addrScenario() mc.Scenario {
 	}}
 }
 
-func main() {
+func init() {
+	if os.Getenv("VERIF_HARNESS") != "C20" {
+		return
+	}
 	mc.Main("C20", func(cfg *mc.Config, emit func(mc.Scenario)) {
 		d := 4
 		if cfg.Thorough() {
@@ -323,5 +326,7 @@ func main() {
 			cd = 80
 		}
 		emit(chainScenario(cd))
+		handlerScenarios(cfg, emit)
 	})
+	os.Exit(0)
 }
